@@ -27,6 +27,41 @@ type ufApp struct {
 
 func (m *Machine) hashAccOf(p Ptr) []T { return m.hashAcc[p] }
 
+func (m *Machine) isHashDigest(p Ptr) bool {
+	_, ok := m.hashAcc[p]
+	return ok
+}
+
+// hashTaint marks a digest whose pre-image is not representable: its sums are
+// fresh unconstrained values until the next Reset.
+func (m *Machine) hashTaint(p Ptr) {
+	if m.hashTainted == nil {
+		m.hashTainted = map[Ptr]bool{}
+	}
+	if !m.hashTainted[p] {
+		m.hashTainted[p] = true
+		m.onUndo(func() { delete(m.hashTainted, p) })
+	}
+}
+
+func (m *Machine) hashUntaint(p Ptr) {
+	if m.hashTainted[p] {
+		delete(m.hashTainted, p)
+		m.onUndo(func() { m.hashTainted[p] = true })
+	}
+}
+
+// hashSum is Sum over the digest's accumulated bytes (or a fresh value when tainted).
+func (m *Machine) hashSum(family string, resW int, p Ptr) T {
+	if m.hashTainted[p] {
+		m.taintSeq++
+		n := m.taintSeq
+		m.onUndo(func() { m.taintSeq-- })
+		return m.F.Var(fmt.Sprintf("uf!%s_tainted#%d", family, n), resW)
+	}
+	return m.ufHash(family, resW, m.hashAccOf(p))
+}
+
 func (m *Machine) hashAccSet(p Ptr, bs []T) {
 	if m.hashAcc == nil {
 		m.hashAcc = map[Ptr][]T{}
@@ -167,6 +202,7 @@ func init() {
 	})
 	register("(*"+xx+".Digest).Reset", func(m *Machine, fr *frame, fn *ssa.Function, args []Value) Value {
 		m.hashAccSet(args[0].(Ptr), nil)
+		m.hashUntaint(args[0].(Ptr))
 		return nil
 	})
 	register("(*"+xx+".Digest).Write", func(m *Machine, fr *frame, fn *ssa.Function, args []Value) Value {
@@ -180,7 +216,7 @@ func init() {
 		return tupleIntNilErr(m, len(bs))
 	})
 	register("(*"+xx+".Digest).Sum64", func(m *Machine, fr *frame, fn *ssa.Function, args []Value) Value {
-		return m.ufHash("xxh", 64, m.hashAccOf(args[0].(Ptr)))
+		return m.hashSum("xxh", 64, args[0].(Ptr))
 	})
 	register(xx+".Sum64", func(m *Machine, fr *frame, fn *ssa.Function, args []Value) Value {
 		return m.ufHash("xxh", 64, m.seqBytes(args[0]))
